@@ -20,7 +20,7 @@ def explore(ctx):
     # (a) model-level: honest shadow prover
     shapes = [dict(n_creds=1), dict(n_creds=1, comm=True), dict(n_creds=2, eq=True), dict(n_creds=2, eq=True, comm=True),
               dict(n_creds=3, eq=True, comm=True), dict(n_creds=2), dict(n_creds=1, comm=True, disclosed=[]),
-              dict(n_creds=1, rev=True, n_claims=4), dict(n_creds=2, rev=True, eq=True, comm=True, one_issuer=True, n_claims=4)]
+              dict(n_creds=1, rev=True, n_claims=4), dict(n_creds=2, rev=True, eq=True, comm=True, one_issuer=True, n_claims=4), dict(n_creds=1, mem=True, n_claims=4)]
     scns = []
     reps = 20 if tier == "thorough" else 4
     for _ in range(reps):
